@@ -101,7 +101,7 @@ func init() {
 			sess := stdSession()
 			forEachStdCase(w, o, func(cs *world.Case, family string) {
 				sess := sess
-				if family == "SCN" || family == "SSTORESEQ" {
+				if family == "SCN" || family == "SSTORESEQ" || family == "SDSEQ" {
 					sess = world.NewSession(cs.Accounts)
 				}
 				vs, r := c01Run(sess, cs)
